@@ -29,7 +29,7 @@ def var_se(x):
 def sweep_params(g, name):
     """moment-search parameter sets: moderate total log-variance so that 5-sigma bars from empirical standard errors are reliable"""
     dt = g.choice([1 / 250, 1 / 50])
-    p = {"dt": dt, "n": g.choice([11, 26])}
+    p = {"dt": dt, "n": g.choice([11, 26]), "via": g.choice(["generator", "instrument"]), "dtype": g.choice(["float64", "float64", "float32"])}
     if name == "brownian":
         p |= {"init": g.choice([0.0, 1.0, -1.0]), "sigma": g.choice([0.2, 1.0]), "mu": g.choice([0.0, 0.3, -0.5])}
     elif name == "geometric_brownian":
@@ -38,9 +38,15 @@ def sweep_params(g, name):
         p |= {"init": g.choice([0.0, 0.04, 0.2]), "kappa": g.choice([1.0, 3.0]), "theta": g.choice([0.04, 0.1]), "sigma": g.choice([0.02, 0.1])}
     elif name == "cir":
         p |= {"init": g.choice([0.04, 0.2, 0.0]), "kappa": g.choice([1.0, 3.0, 0.5]), "theta": g.choice([0.04, 0.1]), "sigma": g.choice([0.2, 1.0])}
+        if g.chance(0.35):      # a rate / variance LEVEL of the order of 1e-4 (1 % volatility): the divisions of the QE scheme must not be clamped there
+            lvl = g.choice([1e-4, 2.5e-5])
+            p |= {"init": lvl, "theta": lvl, "sigma": g.choice([0.01, 0.003])}
     elif name == "heston":
         p |= {"s0": g.choice([1.0, 2.0]), "v0": g.choice([0.04, 0.2]), "kappa": g.choice([1.0, 3.0]), "theta": g.choice([0.04, 0.1]),
               "sigma": g.choice([0.2, 1.0]), "rho": g.choice([-0.7, 0.6])}
+        if g.chance(0.35):
+            lvl = g.choice([1e-4, 2.5e-5])
+            p |= {"v0": lvl, "theta": lvl, "sigma": g.choice([0.01, 0.003])}
     elif name == "merton_jump":
         p |= {"init": g.choice([1.0, 2.0]), "mu": g.choice([0.0, 0.3]), "sigma": g.choice([0.2, 0.5]), "lam": g.choice([10.0, 68.0]),
               "jm": g.choice([0.0, -0.05]), "js": g.choice([0.02, 0.1])}
@@ -97,13 +103,64 @@ def directed_params(name, p):
     return out
 
 
+class _ViaInstrument:
+    """generate_* look-alikes that go through the primary instruments (constructed with the same parameters, simulated over the
+    horizon (n_steps-1) dt): the moment statements must hold for the instruments too"""
+
+    def __init__(self, torch):
+        import pfhedge.instruments as I
+        from collections import namedtuple
+        self.I, self.torch = I, torch
+        self.SV = namedtuple("SV", ["spot", "variance"])
+
+    def _sim(self, inst, n_paths, n_steps, init_state):
+        inst.simulate(n_paths=n_paths, time_horizon=(n_steps - 1) * inst.dt, init_state=init_state)
+        if inst.spot.size(1) != n_steps:
+            raise GridMismatch(list(inst.spot.shape))
+        return inst
+
+    def generate_geometric_brownian(self, N, n, init_state, sigma, mu, dt, dtype):
+        return self._sim(self.I.BrownianStock(sigma=sigma, mu=mu, dt=dt, dtype=dtype), N, n, init_state).spot
+
+    def generate_merton_jump(self, N, n, init_state, mu, sigma, jump_per_year, jump_mean, jump_std, dt, dtype):
+        return self._sim(self.I.MertonJumpStock(mu=mu, sigma=sigma, jump_per_year=jump_per_year, jump_mean=jump_mean, jump_std=jump_std, dt=dt, dtype=dtype),
+                         N, n, init_state).spot
+
+    def generate_kou_jump(self, N, n, init_state, sigma, mu, jump_per_year, jump_mean_up, jump_mean_down, jump_up_prob, dt, dtype):
+        return self._sim(self.I.KouJumpStock(sigma=sigma, mu=mu, jump_per_year=jump_per_year, jump_mean_up=jump_mean_up, jump_mean_down=jump_mean_down,
+                                             jump_up_prob=jump_up_prob, dt=dt, dtype=dtype), N, n, init_state).spot
+
+    def generate_vasicek(self, N, n, init_state, kappa, theta, sigma, dt, dtype):
+        return self._sim(self.I.VasicekRate(kappa=kappa, theta=theta, sigma=sigma, dt=dt, dtype=dtype), N, n, init_state).spot
+
+    def generate_cir(self, N, n, init_state, kappa, theta, sigma, dt, dtype):
+        return self._sim(self.I.CIRRate(kappa=kappa, theta=theta, sigma=sigma, dt=dt, dtype=dtype), N, n, init_state).spot
+
+    def generate_heston(self, N, n, init_state, kappa, theta, sigma, rho, dt, dtype):
+        i = self._sim(self.I.HestonStock(kappa=kappa, theta=theta, sigma=sigma, rho=rho, dt=dt, dtype=dtype), N, n, init_state)
+        return self.SV(i.spot, i.variance)
+
+    def generate_local_volatility_process(self, N, n, sigma_fn, init_state, dt, dtype):
+        i = self._sim(self.I.LocalVolatilityStock(sigma_fn, dt=dt, dtype=dtype), N, n, init_state)
+        return self.SV(i.spot, i.variance)
+
+    def generate_rough_bergomi(self, N, n, init_state, alpha, rho, eta, xi, dt, dtype):
+        i = self._sim(self.I.RoughBergomiStock(alpha=alpha, rho=rho, eta=eta, xi=xi, dt=dt, dtype=dtype), N, n, init_state)
+        return self.SV(i.spot, i.variance)
+
+
 def moment_suite(ctx, torch, S, name, p, NP, origin):
     """search support (not proof): large-sample estimates of the moment statements of C10 on the REAL generator at parameter set `p`,
     each with an explicit 5-standard-error bar; a deviation is a failing input of the property"""
-    dt64 = torch.float64
+    dt64 = getattr(torch, p.get("dtype", "float64"))
+    if p.get("via") == "instrument" and name != "brownian":
+        S = _ViaInstrument(torch)
     dt, n = p["dt"], p["n"]
     T = (n - 1) * dt
     case = {k: v for k, v in p.items()} | {"generator": name, "n_paths": NP, "origin": origin}
+    _mean_se, _var_se = mean_se, var_se
+    mean_se_ = lambda t: _mean_se(t.to(torch.float64))
+    var_se_ = lambda t: _var_se(t.to(torch.float64))
 
     def chk(what, est, se, exact, key, slack=1e-12):
         ctx.case(case | {"stat": what}, True, tag="moments")
@@ -113,41 +170,41 @@ def moment_suite(ctx, torch, S, name, p, NP, origin):
                      detail={"estimate": est, "std_error": se, "closed_form": exact})
     if name == "brownian":
         x = S.generate_brownian(NP, n, init_state=(p["init"],), sigma=p["sigma"], mu=p["mu"], dt=dt, dtype=dt64)[:, -1]
-        m, se = mean_se(x)
+        m, se = mean_se_(x)
         chk("terminal mean = x0 + mu t", m, se, p["init"] + p["mu"] * T, "moment:brownian:mean")
-        v, sev = var_se(x)
+        v, sev = var_se_(x)
         chk("terminal variance = sigma^2 t", v, sev, p["sigma"] ** 2 * T, "moment:brownian:var")
     elif name == "geometric_brownian":
         s0 = p["init"]
         x = S.generate_geometric_brownian(NP, n, init_state=(s0,), sigma=p["sigma"], mu=p["mu"], dt=dt, dtype=dt64)[:, -1]
-        m, se = mean_se(x)
+        m, se = mean_se_(x)
         chk("terminal mean = S0 exp(mu t)", m, se, s0 * math.exp(p["mu"] * T), "moment:gbm:mean")
-        v, sev = var_se((x / s0).log())
+        v, sev = var_se_((x / s0).log())
         chk("log-variance = sigma^2 t", v, sev, p["sigma"] ** 2 * T, "moment:gbm:logvar")
     elif name == "merton_jump":
         s0 = p["init"]
         x = S.generate_merton_jump(NP, n, init_state=(s0,), mu=p["mu"], sigma=p["sigma"], jump_per_year=p["lam"], jump_mean=p["jm"],
                                    jump_std=p["js"], dt=dt, dtype=dt64)[:, -1]
-        m, se = mean_se(x)
+        m, se = mean_se_(x)
         chk("terminal mean = S0 exp(mu t)", m, se, s0 * math.exp(p["mu"] * T), "moment:merton:mean")
-        v, sev = var_se((x / s0).log())
+        v, sev = var_se_((x / s0).log())
         chk("log-variance = (sigma^2 + lam (jm^2 + js^2)) t", v, sev, (p["sigma"] ** 2 + p["lam"] * (p["jm"] ** 2 + p["js"] ** 2)) * T,
             "moment:merton:logvar")
     elif name == "kou_jump":
         s0, pu, up, dn = p["init"], p["p_up"], p["mean_up"], p["mean_down"]
         x = S.generate_kou_jump(NP, n, init_state=(s0,), sigma=p["sigma"], mu=p["mu"], jump_per_year=p["lam"], jump_mean_up=up,
                                 jump_mean_down=dn, jump_up_prob=pu, dt=dt, dtype=dt64)[:, -1]
-        m, se = mean_se(x)
+        m, se = mean_se_(x)
         chk("terminal mean = S0 exp(mu t)", m, se, s0 * math.exp(p["mu"] * T), "moment:kou:mean")
-        v, sev = var_se((x / s0).log())
+        v, sev = var_se_((x / s0).log())
         chk("log-variance = (sigma^2 + 2 lam (p up^2 + (1-p) down^2)) t", v, sev,
             (p["sigma"] ** 2 + 2 * p["lam"] * (pu * up ** 2 + (1 - pu) * dn ** 2)) * T, "moment:kou:logvar")
     elif name == "vasicek":
         k, th, sg, x0 = p["kappa"], p["theta"], p["sigma"], p["init"]
         x = S.generate_vasicek(NP, n, init_state=(x0,), kappa=k, theta=th, sigma=sg, dt=dt, dtype=dt64)[:, -1]
-        m, se = mean_se(x)
+        m, se = mean_se_(x)
         chk("mean = theta + (x0 - theta) exp(-kappa t)", m, se, th + (x0 - th) * math.exp(-k * T), "moment:vasicek:mean")
-        v, sev = var_se(x)
+        v, sev = var_se_(x)
         chk("variance = sigma^2 (1 - exp(-2 kappa t)) / (2 kappa)", v, sev, sg ** 2 * (1 - math.exp(-2 * k * T)) / (2 * k), "moment:vasicek:var",
             slack=1e-18)
     elif name in ("cir", "heston"):
@@ -160,16 +217,16 @@ def moment_suite(ctx, torch, S, name, p, NP, origin):
             o = S.generate_heston(NP, n, init_state=(p["s0"], v0), kappa=k, theta=th, sigma=sg, rho=p["rho"], dt=dt, dtype=dt64)
             x = o.variance[:, -1]
         e1 = math.exp(-k * T)
-        m, se = mean_se(x)
+        m, se = mean_se_(x)
         chk("variance-process mean = theta + (v0 - theta) exp(-kappa t)", m, se, th + (v0 - th) * e1, f"moment:{name}:var-mean" if name == "heston" else "moment:cir:mean")
         # the QE scheme matches the exact conditional mean and variance at every step and both are affine in v, so the terminal
         # variance equals the exact CIR variance (theorem cirStep_variance_* + total variance)
-        v, sev = var_se(x)
+        v, sev = var_se_(x)
         exactv = v0 * sg ** 2 / k * (e1 - e1 * e1) + th * sg ** 2 / (2 * k) * (1 - e1) ** 2
         chk("variance-process variance = v0 sigma^2/kappa (e^-kt - e^-2kt) + theta sigma^2/(2 kappa) (1 - e^-kt)^2", v, sev, exactv,
             f"moment:{name}:var-var" if name == "heston" else "moment:cir:var", slack=1e-4 * exactv + 1e-18)
         if name == "heston":
-            m, se = mean_se(o.spot[:, -1])
+            m, se = mean_se_(o.spot[:, -1])
             chk("terminal spot mean = S0 (martingale)", m, se, p["s0"], "moment:heston:mean")
             if n >= 2 and v0 > 0:
                 ret = (o.spot[:, 1] / o.spot[:, 0]).log()
@@ -182,12 +239,12 @@ def moment_suite(ctx, torch, S, name, p, NP, origin):
     elif name == "local_volatility":
         a, b, c = p["a"], p["b"], p.get("c", 0.0)
         o = S.generate_local_volatility_process(NP, n, lambda t, s: a + b * s + c * t, init_state=(p["init"],), dt=dt, dtype=dt64)
-        m, se = mean_se(o.spot[:, -1])
+        m, se = mean_se_(o.spot[:, -1])
         chk("terminal mean = S0 (martingale)", m, se, p["init"], "moment:localvol:mean")
     else:
         xi = p["xi"]
         o = S.generate_rough_bergomi(min(NP, 20000), n, init_state=(p["s0"], xi), alpha=p["alpha"], rho=p["rho"], eta=p["eta"], xi=xi, dt=dt, dtype=dt64)
-        m, se = mean_se(o.variance[:, -1])
+        m, se = mean_se_(o.variance[:, -1])
         crb = {"xi": xi, "n_steps": n, "dt": dt, "horizon_years": (n - 1) * dt, "alpha": p["alpha"], "eta": p["eta"]}
         ctx.case(crb, True, tag="moments")
         ctx.stats["moment:rough_bergomi"] += 1
@@ -208,11 +265,17 @@ def check(ctx):
     for it in range(n):
         name = g.choice(GENERATORS)
         p = gen_params(g, name)
-        case = {"generator": name, "params": p}
+        # a third of the cases go through the primary instrument built on the generator (parameter plumbing instrument -> generator)
+        via = "instrument" if (name in INSTRUMENTS and g.chance(0.35)) else "generator"
+        case = {"generator": name, "params": p, "via": via}
         try:
-            out, rq, rec = run_generator(torch, name, p)
+            out, rq, rec = run_generator(torch, name, p, via=via)
         except InternalError:
             raise
+        except GridMismatch as e:
+            ctx.case(case, True, tag=name)
+            ctx.fail("an instrument simulated over the horizon (n-1) dt does not return n time steps", case, key=f"inst:{name}:grid", detail=str(e)[:200])
+            continue
         except RecursionError:
             ctx.case(case, True, tag=name)
             ctx.fail("generator raised RecursionError", case, key=f"gen:{name}:recursion")
@@ -222,6 +285,7 @@ def check(ctx):
             ctx.fail("generator raised on admissible parameters", case, key=f"gen:{name}:error", detail=repr(e)[:200])
             continue
         ctx.stats[f"generator={name}"] += 1
+        ctx.stats[f"via={via}"] += 1
         ctx.case(case, nontrivial=p["n"] >= 2, tag=name)
         ctx.traces += 1
         if name == "cir" or name == "heston":
@@ -286,7 +350,12 @@ def check(ctx):
     sweeps = 2 if ctx.tier == "quick" else 8
     for sw in range(sweeps):
         for name in GENERATORS:
-            moment_suite(ctx, torch, S, name, sweep_params(g, name), NP, "sweep")
+            sp_ = sweep_params(g, name)
+            try:
+                moment_suite(ctx, torch, S, name, sp_, NP, "sweep")
+            except GridMismatch as e:
+                ctx.fail("an instrument simulated over the horizon (n-1) dt does not return n time steps", sp_ | {"generator": name}, key=f"inst:{name}:grid",
+                         detail=str(e)[:200])
     # ---------------- failing-input search directed at the generators whose correspondence broke:
     # the same moment statements evaluated at (tamed variants of) the disagreeing parameter sets
     seen = set()
